@@ -7,17 +7,17 @@ from .steps import STEPS, TOOLS, COOLANTS, tool_label
 
 PROPERTY_ID = "C07"
 FUNCTIONS = [
-    "every public state-tracked GCodeBuilder method (vf/props/steps.py: 96 call shapes)",
+    "every public state-tracked GCodeBuilder method (vf/props/steps.py: 99 call shapes)",
     "GCodeBuilder._track_move_params/_update_axes/_get_statement, GState setters and properties",
     "gscrib.codes.gcode_mappings (enum -> instruction table), ParamsDict",
 ]
 BOUNDS = ("Inductive step of I7 (every public state property that the emitted program determines "
-          "equals what an independent modal interpreter derives). Cell grid: 96 call shapes x tool "
+          "equals what an independent modal interpreter derives). Cell grid: 99 call shapes x tool "
           "state (5) x coolant (3) [quick: 2 machine states for non-tool calls] x distance mode. "
           "Solver over: numeric and integer arguments (reals, NaN, +-inf), pre-state feed rate, "
           "tool power, remembered E parameter, target temperatures, current tool number. "
           "Plus TRUE histories from a freshly constructed builder (no private pre-state, no "
-          "invariant assumed): every pair and every triple over an 11-call core alphabet (thorough: every triple) of 22 calls "
+          "invariant assumed): every pair and every triple over an 11-call core alphabet (thorough: every triple) of 25 calls "
           "with symbolic values, compared after every call. Compared after the call (also when it raised): tool active + start code + power while "
           "active, coolant mode, tool number, feed rate, distance/extrusion/feed mode, units, "
           "plane, target temperatures, every remembered non-axis move parameter.")
@@ -177,6 +177,29 @@ HIST = {
     "probe(z,F)": lambda g, a: g.probe("towards", z=-1.0, F=a),
     "emergency": lambda g, a: g.emergency_halt("stop"),
 }
+
+
+def _hooked_move(g, a, new_dict):
+    """A move through a registered hook that changes F, S and E: the state must mirror the words
+    that were actually emitted (the hook's), not the ones the caller passed."""
+    from gscrib.params import ParamsDict
+
+    def hook(origin, target, params, state):
+        if new_dict:
+            out = ParamsDict(params)
+        else:
+            out = params
+        out["F"] = a
+        out["S"] = 2.5
+        out["E"] = 0.75
+        return out
+    with g.move_hook(hook):
+        g.move(x=1.25, F=900.0, S=1.0)
+
+
+HIST["hooked-move(in-place)"] = lambda g, a: _hooked_move(g, a, False)
+HIST["hooked-move(new-dict)"] = lambda g, a: _hooked_move(g, a, True)
+HIST["move(y,f,s)"] = lambda g, a: g.move(y=0.5, f=a, s=1.5)
 
 
 def _make_history(seq):
